@@ -471,7 +471,24 @@ def r6(ctx):
             for a_ in alts_:
                 av = init_value(bb, a_.value)
                 if _removed_range(av) is not None and _removed_range(av)[2] and match(_removed_range(av)[0], ('arg', 2, ANY)):
-                    ctx.ok(bb, 'alternative batch: spliced sub-sequence', bb.blocks[blk].term.span)
+                    # the range taken out is a candidate of the search (non-empty by construction) or provably non-empty (hi - lo a positive constant)
+                    rg_ = core(_removed_range(av)[1])
+                    nonempty = None
+                    if rg_[0] == 'agg' and rg_[2].endswith('Range::Range') and len(rg_[3]) == 2:
+                        lo_, hi_ = core(rg_[3][0]), core(rg_[3][1])
+                        cand_ = lo_[0] == 'field' and hi_[0] == 'field' and lo_[2] == 0 and hi_[2] == 1 and nosite(lo_[1]) == nosite(hi_[1])
+                        from analysis import poly as _pl
+                        try:
+                            d_ = _pl.sub(_pl.poly(hi_), _pl.poly(lo_))
+                            const_ = d_.get((), 0) if set(d_.keys()) <= {()} else None
+                        except Exception:
+                            const_ = None
+                        nonempty = True if cand_ else (const_ is not None and const_ >= 1) if const_ is not None else None
+                    if nonempty is False:
+                        ctx.fail(bb, 'empty-range-batch', 'a returned batch is the range %s of the buffer, which is empty: Some(vec![]) is returned, nothing is removed, and the '
+                                 'next call does the same -- empty batches forever while the items stay in the buffer' % show_in(bb, rg_)[:80], bb.blocks[blk].term.span)
+                    else:
+                        ctx.ok(bb, 'alternative batch: spliced sub-sequence', bb.blocks[blk].term.span)
                 elif any(isinstance(x, tuple) and x and x[0] == 'call' and x[1].endswith('into_vec') or (isinstance(x, tuple) and x and x[0] == 'call' and 'box' in x[1]) for x in walk(av)):
                     pops = [t for t in bb.calls(r'Vec::pop$') if match(sym(bb, t.args[0]), ('arg', 2, ANY))]
                     ctx.require(len(pops) >= 1, bb, 'fallback-pops', 'the fallback batch (no candidate range) is one item popped from the buffer', None, bb.blocks[blk].term.span)
